@@ -74,6 +74,48 @@ theorem permsAgree_heapPerms (maxPerm K : Nat) (hK : maxPerm < K) :
     PermsAgree maxPerm (Rdfcanon.heapPerms K : List β → List (List β)) :=
   Proofs.C04.permsAgree_heapPerms maxPerm K hK
 
+/-! ### Options: the configuration `Canonicalize` runs with ("… for SHA-256 and for any substituted hash
+    function") -/
+
+open Rdfcanon in
+/-- Over every list of option values passed to `Canonicalize`, each field of the effective
+    configuration is the last one set: an option value that does not mention the hash function leaves
+    the substituted hash in place, wherever it stands; with no option the defaults (SHA-256, `c14n%d`
+    provider, no canonical quads) apply.  The equations below determine the three `effective*`
+    functions on every option list (induction from the right). -/
+theorem opts_hash_last_set_wins (opts : List CanonOpt) (h : Nat) (p : Option Nat) (b : Option Bool) :
+    effectiveHash (opts ++ [⟨some h, p, b⟩]) = some h := by
+  simp [effectiveHash, compileOpts, List.foldl_append, CanonOpt.apply]
+
+open Rdfcanon in
+theorem opts_hash_unset_keeps (opts : List CanonOpt) (p : Option Nat) (b : Option Bool) :
+    effectiveHash (opts ++ [⟨none, p, b⟩]) = effectiveHash opts := by
+  simp [effectiveHash, compileOpts, List.foldl_append, CanonOpt.apply]
+
+open Rdfcanon in
+theorem opts_prov_last_set_wins (opts : List CanonOpt) (h : Option Nat) (p : Nat) (b : Option Bool) :
+    effectiveProv (opts ++ [⟨h, some p, b⟩]) = some p := by
+  simp [effectiveProv, compileOpts, List.foldl_append, CanonOpt.apply]
+
+open Rdfcanon in
+theorem opts_prov_unset_keeps (opts : List CanonOpt) (h : Option Nat) (b : Option Bool) :
+    effectiveProv (opts ++ [⟨h, none, b⟩]) = effectiveProv opts := by
+  simp [effectiveProv, compileOpts, List.foldl_append, CanonOpt.apply]
+
+open Rdfcanon in
+theorem opts_build_last_set_wins (opts : List CanonOpt) (h p : Option Nat) (b : Bool) :
+    effectiveBuild (opts ++ [⟨h, p, some b⟩]) = b := by
+  simp [effectiveBuild, compileOpts, List.foldl_append, CanonOpt.apply]
+
+open Rdfcanon in
+theorem opts_build_unset_keeps (opts : List CanonOpt) (h p : Option Nat) :
+    effectiveBuild (opts ++ [⟨h, p, none⟩]) = effectiveBuild opts := by
+  simp [effectiveBuild, compileOpts, List.foldl_append, CanonOpt.apply]
+
+open Rdfcanon in
+theorem opts_default : effectiveHash [] = none ∧ effectiveProv [] = none ∧ effectiveBuild [] = false := by
+  simp [effectiveHash, effectiveProv, effectiveBuild, compileOpts]
+
 /-! ### Non-vacuity: objects satisfying the hypotheses -/
 
 namespace Witness
